@@ -349,5 +349,132 @@ func TestGovcTitleReplay(t *testing.T) {
 		}
 	}
 	fmt.Printf("GOVC-INFO title white-space section: titles checked for white-space defects (non-empty result): %d, demanded to be exactly the normalised <title> text: %d\n", hygieneChecked, exactNormChecked)
-	fmt.Printf("GOVC-CASES evaluations=%d distinct_nontrivial=%d rule=%s\n", evals, nontrivial, fmt.Sprintf("16 title shapes x {h1 same, same with split first word, other, none} x {with, without og:title}; plus 20 typographic titles (apostrophe variants U+2018/2019/02BB/02BC/ASCII alone, mixed, leading, elisions; curly/low quotes, guillemets, en/em dash, ellipsis, nbsp, soft hyphen, accents, primes; two with a site suffix) x {h1 same, split, in a link, other, none, re-typed with ASCII / right / no apostrophes / all-ASCII punctuation} x {no og:title, fixed, same text, ASCII-apostrophe variant}; plus 15 raw white-space shapes of the <title> text (compact, on its own indented line with blanks / tabs / CRLF, 90 blanks of indentation, leading, trailing, a line break inside, one word per line, double blanks, 40-blank gaps, tabs, nbsp as character and as entity, character references for LF/TAB/CR/blank) x 14 length classes (2 words 9 characters, 3 words 14/15/17, one long word, 4, 5, 9 words, 9 multi-byte words, exactly 149/150/151 characters, a site suffix, a colon) x {h1 other, none, same text compact, same text same shape}: length and separator are judged on the normalised text, the result must BE the normalised text and have no line break, tab, run of blanks, leading or trailing blank; distinct by construction; repetition is only demanded when the heading is character for character the chosen title (checked in Result.Text and Result.Node; measured: %d cases); non-trivial = non-empty <title>", repeatChecked))
+
+	// ---- markup of the block that repeats the title x position (appended; the keys above are unchanged) ----
+	// "A block whose text is the title is not emitted again inside the distilled content" does not depend on the tag
+	// of that block: templates mark the headline up as h1, as a lower heading, as a styled div or paragraph, inside
+	// <header>, wrapped in a link ... Each markup is evaluated twice: once with the chosen title as its text and once
+	// (control) with an unrelated text, which tells whether that markup at that position is emitted at all.
+	blkChecked, blkControlEmitted := 0, 0
+	{
+		type blkTitle struct {
+			key, title string // <title> text
+			texts      []struct{ key, text string }
+			meta       string
+		}
+		bt := func(key, title, meta string, kv ...string) blkTitle {
+			b := blkTitle{key: key, title: title, meta: meta}
+			for i := 0; i+1 < len(kv); i += 2 {
+				b.texts = append(b.texts, struct{ key, text string }{kv[i], kv[i+1]})
+			}
+			return b
+		}
+		blkTitles := []blkTitle{
+			bt("plain-8w", "Seven surprising facts about the common garden snail", "", "full", "Seven surprising facts about the common garden snail"),
+			bt("plain-4w", "Markets rally after announcement", "", "full", "Markets rally after announcement"),
+			bt("plain-multibyte", "Überraschende Wende für Bürgermeister Müller über Österreichs größte Straßenbrücke", "", "full", "Überraschende Wende für Bürgermeister Müller über Österreichs größte Straßenbrücke"),
+			bt("plain-long-130c", strings.TrimSpace(strings.Repeat("rather long headline words ", 5)), "", "full", strings.TrimSpace(strings.Repeat("rather long headline words ", 5))),
+			bt("dash-site", "Quick brown foxes jump over dogs - Example Times", "", "main", "Quick brown foxes jump over dogs", "full", "Quick brown foxes jump over dogs - Example Times"),
+			bt("pipe-site", "Harbour festival programme published today | Estuary Courier", "", "main", "Harbour festival programme published today", "full", "Harbour festival programme published today | Estuary Courier"),
+			bt("apostrophe", "The fox's seven quick jumps over dogs", "", "full", "The fox's seven quick jumps over dogs"),
+			bt("question", "Why are the night trains coming back?", "", "full", "Why are the night trains coming back?"),
+			bt("og-title", "Estuary Courier, independent since 1887", ogMeta("Council approves the new harbour bridge"), "og", "Council approves the new harbour bridge"),
+		}
+		type blkMarkup struct {
+			key  string
+			wrap func(inner string) string
+		}
+		w := func(pre, post string) func(string) string {
+			return func(inner string) string { return pre + inner + post }
+		}
+		blkMarkups := []blkMarkup{
+			{"h1", w("<h1>", "</h1>")},
+			{"h2", w("<h2>", "</h2>")},
+			{"h3", w("<h3>", "</h3>")},
+			{"h4", w("<h4>", "</h4>")},
+			{"h5", w("<h5>", "</h5>")},
+			{"h6", w("<h6>", "</h6>")},
+			{"h2-class", w(`<h2 class="entry-title" itemprop="headline">`, "</h2>")},
+			{"div-headline", w(`<div class="headline">`, "</div>")},
+			{"div-plain", w("<div>", "</div>")},
+			{"div-role-heading", w(`<div role="heading" aria-level="1">`, "</div>")},
+			{"p-strong", w(`<p class="hl"><strong>`, "</strong></p>")},
+			{"p-b", w("<p><b>", "</b></p>")},
+			{"p-em", w("<p><em>", "</em></p>")},
+			{"p-plain", w("<p>", "</p>")},
+			{"p-class-title", w(`<p class="title">`, "</p>")},
+			{"header-div", w("<header><div>", "</div></header>")},
+			{"header-h1", w("<header><h1>", "</h1></header>")},
+			{"header-p", w(`<header class="entry-header"><p>`, "</p></header>")},
+			{"div-span", w(`<div><span class="hl">`, "</span></div>")},
+			{"div-strong", w("<div><strong>", "</strong></div>")},
+			{"section-h2", w("<section><h2>", "</h2></section>")},
+			{"h1-link", w(`<h1><a href="/story">`, "</a></h1>")},
+			{"h2-link", w(`<h2><a href="/story" rel="bookmark">`, "</a></h2>")},
+			{"link-h2", w(`<a href="/story"><h2>`, "</h2></a>")},
+			{"div-link", w(`<div class="headline"><a href="/story">`, "</a></div>")},
+			{"h1-span", w(`<h1><span>`, "</span></h1>")},
+			{"blockquote-p", w("<blockquote><p>", "</p></blockquote>")},
+			{"center-font", w(`<center><font size="5">`, "</font></center>")},
+		}
+		lead := "<p>" + strings.Repeat("An opening paragraph that sets the scene for the reader with quite ordinary words in it. ", 4) + "</p>"
+		byline := `<p>By a staff reporter</p>`
+		paras := strings.SplitAfter(govcTitleBody, "</p>") // 3 paragraphs and an empty tail
+		type blkPos struct {
+			key  string
+			make func(block string) string
+		}
+		blkPositions := []blkPos{
+			{"first", func(b string) string { return b + govcTitleBody }},
+			{"after-lead", func(b string) string { return lead + b + govcTitleBody }},
+			{"after-byline", func(b string) string { return byline + b + govcTitleBody }},
+			{"middle", func(b string) string { return paras[0] + b + paras[1] + paras[2] }},
+			{"twice", func(b string) string { return b + paras[0] + paras[1] + b + paras[2] }}, // headline and a pull quote of it
+		}
+		const control = "Completely different heading text here"
+		for _, tc := range blkTitles {
+			for _, tx := range tc.texts {
+				for _, mk := range blkMarkups {
+					for _, ps := range blkPositions {
+						key := fmt.Sprintf("blk-%s/text-%s/%s/%s", tc.key, tx.key, mk.key, ps.key)
+						run := func(text string) (*Result, bool) {
+							src := `<html><head><title>` + tc.title + `</title>` + tc.meta + `</head><body><div id="main">` + ps.make(mk.wrap(text)) + `</div></body></html>`
+							res, err := ApplyForReader(strings.NewReader(src), nil)
+							evals++
+							if err != nil {
+								t.Errorf("GOVC-FAIL %s :: title case returned error %v", key, err)
+								return nil, false
+							}
+							return res, true
+						}
+						res, ok := run(tx.text)
+						if !ok {
+							continue
+						}
+						if !strings.Contains(res.Text, "lorem ipsum dolor") {
+							t.Errorf("GOVC-FAIL %s/body :: the article body is not extracted (harness precondition)", key)
+							continue
+						}
+						if govcNormSpace(res.Title) != govcNormSpace(tx.text) {
+							continue // this text is not the title that was chosen: the clause says nothing
+						}
+						nontrivial++
+						repeatChecked++
+						blkChecked++
+						if ctl, ok := run(control); ok && strings.Contains(noSpace(ctl.Text), noSpace(control)) {
+							blkControlEmitted++
+						}
+						if strings.Contains(noSpace(res.Text), noSpace(tx.text)) {
+							t.Errorf("GOVC-FAIL %s/repeated :: the title %q is repeated in the distilled text; the block with that text is %s, position %s", key, res.Title, mk.wrap("…"), ps.key)
+						}
+						if res.Node != nil && strings.Contains(noSpace(govcC15NodeText(res.Node)), noSpace(tx.text)) {
+							t.Errorf("GOVC-FAIL %s/repeated-html :: the title %q is repeated in the text nodes of Result.Node; the block with that text is %s, position %s", key, res.Title, mk.wrap("…"), ps.key)
+						}
+					}
+				}
+			}
+		}
+		fmt.Printf("GOVC-INFO title block-markup section: blocks whose text is the chosen title: %d; of these, the same markup at the same position with an unrelated text IS emitted (so only the title rule removes it): %d\n", blkChecked, blkControlEmitted)
+	}
+	fmt.Printf("GOVC-CASES evaluations=%d distinct_nontrivial=%d rule=%s\n", evals, nontrivial, fmt.Sprintf("16 title shapes x {h1 same, same with split first word, other, none} x {with, without og:title}; plus 20 typographic titles (apostrophe variants U+2018/2019/02BB/02BC/ASCII alone, mixed, leading, elisions; curly/low quotes, guillemets, en/em dash, ellipsis, nbsp, soft hyphen, accents, primes; two with a site suffix) x {h1 same, split, in a link, other, none, re-typed with ASCII / right / no apostrophes / all-ASCII punctuation} x {no og:title, fixed, same text, ASCII-apostrophe variant}; plus 15 raw white-space shapes of the <title> text (compact, on its own indented line with blanks / tabs / CRLF, 90 blanks of indentation, leading, trailing, a line break inside, one word per line, double blanks, 40-blank gaps, tabs, nbsp as character and as entity, character references for LF/TAB/CR/blank) x 14 length classes (2 words 9 characters, 3 words 14/15/17, one long word, 4, 5, 9 words, 9 multi-byte words, exactly 149/150/151 characters, a site suffix, a colon) x {h1 other, none, same text compact, same text same shape}: length and separator are judged on the normalised text, the result must BE the normalised text and have no line break, tab, run of blanks, leading or trailing blank; distinct by construction; repetition is only demanded when the heading is character for character the chosen title (checked in Result.Text and Result.Node; measured: %d cases); plus the MARKUP of the block that repeats the title: 9 titles (plain 4/8 words, multi-byte, 130 characters, dash/pipe site suffix with the block holding the main part or the full text, apostrophe, question mark, og:title) x 28 block markups (h1..h6, h2 with class, div.headline, plain div, div role=heading, p>strong, p>b, p>em, plain p, p.title, header>div, header>h1, header>p, div>span, div>strong, section>h2, h1>a, h2>a, a>h2, div>a, h1>span, blockquote>p, center>font) x 5 positions (first block, after a lead paragraph, after a byline, between body paragraphs, twice = headline plus pull quote), the clause is demanded whenever the block text is the chosen title, each with a control run (unrelated text in the same markup/position; measured: title blocks %d, control emitted %d); non-trivial = non-empty <title> (block-markup section: the block text is the chosen title)", repeatChecked, blkChecked, blkControlEmitted))
 }
